@@ -11,7 +11,7 @@ m = {
  "hooks": {
   "guard": "verif",
   "enable": "go1.26.8 test -c -tags verif -overlay .work/overlay.json ./h (done by ./check on every run, from /repo's working tree)",
-  "baseline_off_cmd": "cd /repo && go test -vet=off -count=1 ./...",
+  "baseline_off_cmd": "cd /repo && GOFLAGS=-mod=mod go test -json -vet=off -count=1 -timeout 25m ./...",
   "source_commits": hook_commits,
   "add_only": True,
  },
